@@ -23,6 +23,7 @@ def main(argv=None) -> int:
     args = ap.parse_args(argv)
     prop = args.prop.upper()
     started = time.time()
+    battery_error = None
     try:
         mod = importlib.import_module(f"sa.checks.{prop.lower()}")
         ctx = Context(args.repo, args.tier)
@@ -34,15 +35,42 @@ def main(argv=None) -> int:
             except ImportError:
                 battery = None
             if battery is not None:
-                stats["battery"] = battery(prop, args.repo)
-        return finish(prop, args.tier, rules, started, mod.EXPLANATION, mod.ASSUMPTIONS, stats, mod.NOT_DECIDED)
+                # the battery measures the CHECKER on variants of the current tree; on a tree that already violates the
+                # property every variant is reported too, which says nothing about the checker: the verdict on the tree
+                # itself comes first, a battery failure matters only when that verdict is "holds"
+                try:
+                    stats["battery"] = battery(prop, args.repo)
+                except AnalysisError as e:
+                    battery_error = e
+                    stats["battery"] = {"failed": str(e)}
+        rc = finish(prop, args.tier, rules, started, mod.EXPLANATION, mod.ASSUMPTIONS, stats, mod.NOT_DECIDED)
+        if rc == 0 and battery_error is not None:
+            print(f"ANALYSIS-ERROR property={prop} {battery_error}")
+            return 2
+        return rc
     except AnalysisError as e:
         print(f"ANALYSIS-ERROR property={prop} {e}")
-        return 2
+        return _partial(prop, args.tier, started, str(e))
     except Exception:  # noqa: BLE001 - a checker crash is never a verdict
         tb = traceback.format_exc()
         print(f"ANALYSIS-ERROR property={prop} rule=checker-exception reason=unexpected exception in the checker")
         print(tb)
+        return _partial(prop, args.tier, started, "checker-exception: " + tb.strip().splitlines()[-1][:300])
+
+
+def _partial(prop, tier, started, why) -> int:
+    """A rule that cannot be analysed decides nothing - but the obligations that WERE evaluated before it stand: a failed
+    one is still a violation at a named construct.  Without one the run stays exit 2."""
+    try:
+        from .report import ALL_RULES
+        rules = [r for r in ALL_RULES if r.rid.startswith(prop + ".") and any(o["verdict"] == "FAILED" for o in r.obligations)]
+        if not rules:
+            return 2
+        mod = importlib.import_module(f"sa.checks.{prop.lower()}")
+        print(f"NOTE: the analysis stopped early ({why[:200]}); the obligations evaluated before that are reported")
+        return finish(prop, tier, rules, started, mod.EXPLANATION, mod.ASSUMPTIONS, {}, mod.NOT_DECIDED, partial=why)
+    except Exception:  # noqa: BLE001
+        print(traceback.format_exc())
         return 2
 
 
